@@ -217,13 +217,19 @@ def check_zigzag_dec(F, fn):
 # ---------------------------------------------------------------------------------------------
 
 class ByteSource:
-    """How a reader obtains its bytes. postcard: `self.flavor.pop()`; dyn: `rest.take_one()`."""
+    """How a reader obtains its bytes. postcard: `self.flavor.pop()`; dyn: `rest.take_one()` with the rest threaded."""
 
-    def __init__(self, key, err_variant, byte_of, threaded=False):
+    def __init__(self, key, err_variant, byte_of, threaded=False, rest_of=None):
         self.key = key
         self.err_variant = err_variant
         self.byte_of = byte_of
         self.threaded = threaded
+        self.rest_of = rest_of
+
+
+TAKE_ONE = ByteSource("postcard_dyn::de::TakeExt::take_one", "SchemaMismatch",
+                      lambda callterm: ("getf", ("okval", callterm), "0"), threaded=True,
+                      rest_of=lambda callterm: ("getf", ("okval", callterm), "1"))
 
 
 POP = ByteSource("postcard::de::flavors::Flavor::pop", "DeserializeBadVarint",
@@ -265,6 +271,13 @@ def check_reader(F, fn, N, src=POP, value_of_ret=None):
                 bytes_.append(b.rows(src.byte_of(e["result"])))
             except Top as ex:
                 raise No("byte read is not an 8-bit value (%s)" % ex)
+        if src.threaded:
+            from tbl import norm
+            prev = ("param", 1, fn.locals[1]["ty"])
+            for e in pops:
+                if norm(e["args"][0]) != norm(prev):
+                    raise No("byte #%d is read from %s, not from where the previous read stopped" % (e["id"], sym.show(norm(e["args"][0]))))
+                prev = src.rest_of(e["result"])
 
         def cont(i):
             r = b.reduce(bytes_[i][7])
@@ -292,6 +305,13 @@ def check_reader(F, fn, N, src=POP, value_of_ret=None):
                 if b.all_zero(bytes_[j - 1][klast:7]) is not True:
                     raise No("accepts a %d-byte encoding whose last group may exceed %d bits (value overflows u%d)" % (K, klast, N))
             val = ret[5][0]
+            if src.threaded:
+                from tbl import norm
+                if not (val[0] == "agg" and val[1] == "tuple" and len(val[5]) == 2):
+                    raise No("does not return (value, rest)")
+                if norm(val[5][1]) != norm(src.rest_of(pops[-1]["result"])):
+                    raise No("returned rest is %s, not the input after the last byte read" % sym.show(norm(val[5][1])))
+                val = val[5][0]
             if value_of_ret:
                 val = value_of_ret(val)
             try:
